@@ -2,7 +2,7 @@
     the Proofs_C13*.v files, each followed by Print Assumptions.  Tags (* @kernel kind *) are read by the harness. *)
 From Coq Require Import ZArith List Bool.
 From AwkV Require Import Base.
-From AwkKernels Require Import Kernels KLemmas Proofs_C13 Proofs_C13b Proofs_C13c.
+From AwkKernels Require Import Kernels KLemmas Proofs_C13 Proofs_C13b Proofs_C13c Proofs_C13e Proofs_C13f.
 Import ListNotations.
 Open Scope Z_scope.
 
@@ -709,3 +709,784 @@ Theorem C13_ListArray_combinations_length_spec :
                                    else at_ tooffsets q.
 Proof. exact ListArray_combinations_length_spec. Qed.
 Print Assumptions C13_ListArray_combinations_length_spec.
+
+(* @awkward_ByteMaskedArray_getitem_carry k_safe *)
+Theorem C13_ByteMaskedArray_getitem_carry_safe :
+  forall tomask frommask lenmask fromcarry lencarry,
+  lencarry <= zlen fromcarry -> lencarry <= zlen tomask -> lenmask <= zlen frommask ->
+  (forall i, 0 <= i < lencarry -> 0 <= at_ fromcarry i) ->
+  ByteMaskedArray_getitem_carry tomask frommask lenmask fromcarry lencarry <> KOob.
+Proof. exact ByteMaskedArray_getitem_carry_safe. Qed.
+Print Assumptions C13_ByteMaskedArray_getitem_carry_safe.
+
+(* @awkward_ByteMaskedArray_getitem_carry k_spec *)
+Theorem C13_ByteMaskedArray_getitem_carry_spec :
+  forall tomask frommask fromcarry,
+  zlen fromcarry <= zlen tomask ->
+  (forall i, 0 <= i < zlen fromcarry -> 0 <= at_ fromcarry i < zlen frommask) ->
+  ByteMaskedArray_getitem_carry tomask frommask (zlen frommask) fromcarry (zlen fromcarry)
+  = KOk (map (at_ frommask) fromcarry ++ skipn (length fromcarry) tomask).
+Proof. exact ByteMaskedArray_getitem_carry_spec. Qed.
+Print Assumptions C13_ByteMaskedArray_getitem_carry_spec.
+
+(* @awkward_ByteMaskedArray_mask k_safe *)
+Theorem C13_ByteMaskedArray_mask_safe :
+  forall tomask frommask n vw,
+  n <= zlen frommask -> n <= zlen tomask -> ByteMaskedArray_mask tomask frommask n vw <> KOob.
+Proof. exact ByteMaskedArray_mask_safe. Qed.
+Print Assumptions C13_ByteMaskedArray_mask_safe.
+
+(* @awkward_ByteMaskedArray_mask k_spec *)
+Theorem C13_ByteMaskedArray_mask_spec :
+  forall tomask frommask vw,
+  zlen frommask <= zlen tomask ->
+  ByteMaskedArray_mask tomask frommask (zlen frommask) vw
+  = KOk (map (fun m => b2z (negb (mvalid m vw))) frommask ++ skipn (length frommask) tomask).
+Proof. exact ByteMaskedArray_mask_spec. Qed.
+Print Assumptions C13_ByteMaskedArray_mask_spec.
+
+(* @awkward_ByteMaskedArray_overlay_mask k_safe *)
+Theorem C13_ByteMaskedArray_overlay_mask_safe :
+  forall tomask theirmask mymask n vw,
+  n <= zlen theirmask -> n <= zlen mymask -> n <= zlen tomask ->
+  ByteMaskedArray_overlay_mask tomask theirmask mymask n vw <> KOob.
+Proof. exact ByteMaskedArray_overlay_mask_safe. Qed.
+Print Assumptions C13_ByteMaskedArray_overlay_mask_safe.
+
+(* @awkward_ByteMaskedArray_overlay_mask k_spec *)
+Theorem C13_ByteMaskedArray_overlay_mask_spec :
+  forall tomask theirmask mymask vw,
+  zlen theirmask = zlen mymask -> zlen theirmask <= zlen tomask ->
+  ByteMaskedArray_overlay_mask tomask theirmask mymask (zlen theirmask) vw
+  = KOk (map (fun p => b2z (negb (fst p =? 0) || negb (mvalid (snd p) vw))) (zip theirmask mymask)
+         ++ skipn (length theirmask) tomask).
+Proof. exact ByteMaskedArray_overlay_mask_spec. Qed.
+Print Assumptions C13_ByteMaskedArray_overlay_mask_spec.
+
+(* @awkward_Index_to_Index64 k_safe *)
+Theorem C13_Index_to_Index64_safe :
+  forall toptr fromptr n,
+  n <= zlen fromptr -> n <= zlen toptr -> Index_to_Index64 toptr fromptr n <> KOob.
+Proof. exact Index_to_Index64_safe. Qed.
+Print Assumptions C13_Index_to_Index64_safe.
+
+(* @awkward_Index_to_Index64 k_spec *)
+Theorem C13_Index_to_Index64_spec :
+  forall toptr fromptr,
+  zlen fromptr <= zlen toptr ->
+  Index_to_Index64 toptr fromptr (zlen fromptr) = KOk (fromptr ++ skipn (length fromptr) toptr).
+Proof. exact Index_to_Index64_spec. Qed.
+Print Assumptions C13_Index_to_Index64_spec.
+
+(* @awkward_IndexedArray_fill_count k_safe *)
+Theorem C13_IndexedArray_fill_count_safe :
+  forall tTO toindex off n base,
+  0 <= off -> off + n <= zlen toindex -> IndexedArray_fill_count tTO toindex off n base <> KOob.
+Proof. exact IndexedArray_fill_count_safe. Qed.
+Print Assumptions C13_IndexedArray_fill_count_safe.
+
+(* @awkward_IndexedArray_fill_count k_spec *)
+Theorem C13_IndexedArray_fill_count_spec :
+  forall toindex off n base,
+  0 <= off -> 0 <= n -> off + n <= zlen toindex ->
+  IndexedArray_fill_count TIdeal toindex off n base
+  = KOk (firstn (Z.to_nat off) toindex ++ map (fun i => i + base) (iota n) ++ skipn (Z.to_nat (off + n)) toindex).
+Proof. exact IndexedArray_fill_count_spec. Qed.
+Print Assumptions C13_IndexedArray_fill_count_spec.
+
+(* @awkward_IndexedArray_fill_count k_width *)
+Theorem C13_IndexedArray_fill_count_width :
+  forall tTO toindex off n base,
+  (forall i, 0 <= i < n -> fits tTO (i + base)) ->
+  IndexedArray_fill_count tTO toindex off n base = IndexedArray_fill_count TIdeal toindex off n base.
+Proof. exact IndexedArray_fill_count_width. Qed.
+Print Assumptions C13_IndexedArray_fill_count_width.
+
+(* @awkward_UnionArray_fillindex_count k_safe *)
+Theorem C13_UnionArray_fillindex_count_safe :
+  forall tTO toindex off n,
+  0 <= off -> off + n <= zlen toindex -> UnionArray_fillindex_count tTO toindex off n <> KOob.
+Proof. exact UnionArray_fillindex_count_safe. Qed.
+Print Assumptions C13_UnionArray_fillindex_count_safe.
+
+(* @awkward_UnionArray_fillindex_count k_spec *)
+Theorem C13_UnionArray_fillindex_count_spec :
+  forall toindex off n,
+  0 <= off -> 0 <= n -> off + n <= zlen toindex ->
+  UnionArray_fillindex_count TIdeal toindex off n
+  = KOk (firstn (Z.to_nat off) toindex ++ iota n ++ skipn (Z.to_nat (off + n)) toindex).
+Proof. exact UnionArray_fillindex_count_spec. Qed.
+Print Assumptions C13_UnionArray_fillindex_count_spec.
+
+(* @awkward_UnionArray_fillindex_count k_width *)
+Theorem C13_UnionArray_fillindex_count_width :
+  forall tTO toindex off n,
+  (forall i, 0 <= i < n -> fits tTO i) ->
+  UnionArray_fillindex_count tTO toindex off n = UnionArray_fillindex_count TIdeal toindex off n.
+Proof. exact UnionArray_fillindex_count_width. Qed.
+Print Assumptions C13_UnionArray_fillindex_count_width.
+
+(* @awkward_UnionArray_filltags_const k_safe *)
+Theorem C13_UnionArray_filltags_const_safe :
+  forall tTO totags off n base,
+  0 <= off -> off + n <= zlen totags -> UnionArray_filltags_const tTO totags off n base <> KOob.
+Proof. exact UnionArray_filltags_const_safe. Qed.
+Print Assumptions C13_UnionArray_filltags_const_safe.
+
+(* @awkward_UnionArray_filltags_const k_spec *)
+Theorem C13_UnionArray_filltags_const_spec :
+  forall totags off n base,
+  0 <= off -> 0 <= n -> off + n <= zlen totags ->
+  UnionArray_filltags_const TIdeal totags off n base
+  = KOk (firstn (Z.to_nat off) totags ++ map (fun _ => base) (iota n) ++ skipn (Z.to_nat (off + n)) totags).
+Proof. exact UnionArray_filltags_const_spec. Qed.
+Print Assumptions C13_UnionArray_filltags_const_spec.
+
+(* @awkward_UnionArray_filltags_const k_width *)
+Theorem C13_UnionArray_filltags_const_width :
+  forall tTO totags off n base,
+  fits tTO base ->
+  UnionArray_filltags_const tTO totags off n base = UnionArray_filltags_const TIdeal totags off n base.
+Proof. exact UnionArray_filltags_const_width. Qed.
+Print Assumptions C13_UnionArray_filltags_const_width.
+
+(* @awkward_IndexedArray_getitem_carry k_safe *)
+Theorem C13_IndexedArray_getitem_carry_safe :
+  forall tC toindex fromindex fromcarry lenindex lencarry,
+  lencarry <= zlen fromcarry -> lencarry <= zlen toindex -> lenindex <= zlen fromindex ->
+  (forall i, 0 <= i < lencarry -> 0 <= at_ fromcarry i) ->
+  IndexedArray_getitem_carry tC toindex fromindex fromcarry lenindex lencarry <> KOob.
+Proof. exact IndexedArray_getitem_carry_safe. Qed.
+Print Assumptions C13_IndexedArray_getitem_carry_safe.
+
+(* @awkward_IndexedArray_getitem_carry k_spec *)
+Theorem C13_IndexedArray_getitem_carry_spec :
+  forall toindex fromindex fromcarry,
+  zlen fromcarry <= zlen toindex ->
+  (forall i, 0 <= i < zlen fromcarry -> 0 <= at_ fromcarry i < zlen fromindex) ->
+  IndexedArray_getitem_carry TIdeal toindex fromindex fromcarry (zlen fromindex) (zlen fromcarry)
+  = KOk (map (at_ fromindex) fromcarry ++ skipn (length fromcarry) toindex).
+Proof. exact IndexedArray_getitem_carry_spec. Qed.
+Print Assumptions C13_IndexedArray_getitem_carry_spec.
+
+(* @awkward_IndexedArray_getitem_carry k_width *)
+Theorem C13_IndexedArray_getitem_carry_width :
+  forall tC toindex fromindex fromcarry lenindex lencarry,
+  (forall x, In x fromindex -> fits tC x) ->
+  IndexedArray_getitem_carry tC toindex fromindex fromcarry lenindex lencarry
+  = IndexedArray_getitem_carry TIdeal toindex fromindex fromcarry lenindex lencarry.
+Proof. exact IndexedArray_getitem_carry_width. Qed.
+Print Assumptions C13_IndexedArray_getitem_carry_width.
+
+(* @awkward_IndexedArray_mask k_safe *)
+Theorem C13_IndexedArray_mask_safe :
+  forall tomask fromindex n,
+  n <= zlen fromindex -> n <= zlen tomask -> IndexedArray_mask tomask fromindex n <> KOob.
+Proof. exact IndexedArray_mask_safe. Qed.
+Print Assumptions C13_IndexedArray_mask_safe.
+
+(* @awkward_IndexedArray_mask k_spec *)
+Theorem C13_IndexedArray_mask_spec :
+  forall tomask fromindex,
+  zlen fromindex <= zlen tomask ->
+  IndexedArray_mask tomask fromindex (zlen fromindex)
+  = KOk (map (fun x => b2z (x <? 0)) fromindex ++ skipn (length fromindex) tomask).
+Proof. exact IndexedArray_mask_spec. Qed.
+Print Assumptions C13_IndexedArray_mask_spec.
+
+(* @awkward_IndexedArray_overlay_mask k_safe *)
+Theorem C13_IndexedArray_overlay_mask_safe :
+  forall tTO toindex mask fromindex n,
+  n <= zlen mask -> n <= zlen fromindex -> n <= zlen toindex ->
+  IndexedArray_overlay_mask tTO toindex mask fromindex n <> KOob.
+Proof. exact IndexedArray_overlay_mask_safe. Qed.
+Print Assumptions C13_IndexedArray_overlay_mask_safe.
+
+(* @awkward_IndexedArray_overlay_mask k_spec *)
+Theorem C13_IndexedArray_overlay_mask_spec :
+  forall toindex mask fromindex,
+  zlen mask = zlen fromindex -> zlen mask <= zlen toindex ->
+  IndexedArray_overlay_mask TIdeal toindex mask fromindex (zlen mask)
+  = KOk (map (fun p => if negb (fst p =? 0) then -1 else snd p) (zip mask fromindex) ++ skipn (length mask) toindex).
+Proof. exact IndexedArray_overlay_mask_spec. Qed.
+Print Assumptions C13_IndexedArray_overlay_mask_spec.
+
+(* @awkward_IndexedArray_overlay_mask k_width *)
+Theorem C13_IndexedArray_overlay_mask_width :
+  forall tTO toindex mask fromindex n,
+  fits tTO (-1) -> (forall x, In x fromindex -> fits tTO x) ->
+  IndexedArray_overlay_mask tTO toindex mask fromindex n = IndexedArray_overlay_mask TIdeal toindex mask fromindex n.
+Proof. exact IndexedArray_overlay_mask_width. Qed.
+Print Assumptions C13_IndexedArray_overlay_mask_width.
+
+(* @awkward_IndexedArray_simplify k_safe *)
+Theorem C13_IndexedArray_simplify_safe :
+  forall toindex outerindex outerlength innerindex innerlength,
+  outerlength <= zlen outerindex -> outerlength <= zlen toindex -> innerlength <= zlen innerindex ->
+  IndexedArray_simplify toindex outerindex outerlength innerindex innerlength <> KOob.
+Proof. exact IndexedArray_simplify_safe. Qed.
+Print Assumptions C13_IndexedArray_simplify_safe.
+
+(* @awkward_IndexedArray_simplify k_spec *)
+Theorem C13_IndexedArray_simplify_spec :
+  forall toindex outerindex innerindex,
+  zlen outerindex <= zlen toindex ->
+  (forall i, 0 <= i < zlen outerindex -> at_ outerindex i < zlen innerindex) ->
+  IndexedArray_simplify toindex outerindex (zlen outerindex) innerindex (zlen innerindex)
+  = KOk (map (fun j => if j <? 0 then -1 else at_ innerindex j) outerindex ++ skipn (length outerindex) toindex).
+Proof. exact IndexedArray_simplify_spec. Qed.
+Print Assumptions C13_IndexedArray_simplify_spec.
+
+(* @awkward_index_carry k_safe *)
+Theorem C13_index_carry_safe :
+  forall toindex fromindex carry lenfromindex n,
+  n <= zlen carry -> n <= zlen toindex -> lenfromindex <= zlen fromindex ->
+  index_carry toindex fromindex carry lenfromindex n <> KOob.
+Proof. exact index_carry_safe. Qed.
+Print Assumptions C13_index_carry_safe.
+
+(* @awkward_index_carry k_spec *)
+Theorem C13_index_carry_spec :
+  forall toindex fromindex carry,
+  zlen carry <= zlen toindex ->
+  (forall i, 0 <= i < zlen carry -> 0 <= at_ carry i < zlen fromindex) ->
+  index_carry toindex fromindex carry (zlen fromindex) (zlen carry)
+  = KOk (map (at_ fromindex) carry ++ skipn (length carry) toindex).
+Proof. exact index_carry_spec. Qed.
+Print Assumptions C13_index_carry_spec.
+
+(* @awkward_index_carry_nocheck k_safe *)
+Theorem C13_index_carry_nocheck_safe :
+  forall toindex fromindex carry n,
+  n <= zlen carry -> n <= zlen toindex ->
+  (forall i, 0 <= i < n -> 0 <= at_ carry i < zlen fromindex) ->
+  index_carry_nocheck toindex fromindex carry n <> KOob.
+Proof. exact index_carry_nocheck_safe. Qed.
+Print Assumptions C13_index_carry_nocheck_safe.
+
+(* @awkward_index_carry_nocheck k_spec *)
+Theorem C13_index_carry_nocheck_spec :
+  forall toindex fromindex carry,
+  zlen carry <= zlen toindex ->
+  (forall i, 0 <= i < zlen carry -> 0 <= at_ carry i < zlen fromindex) ->
+  index_carry_nocheck toindex fromindex carry (zlen carry)
+  = KOk (map (at_ fromindex) carry ++ skipn (length carry) toindex).
+Proof. exact index_carry_nocheck_spec. Qed.
+Print Assumptions C13_index_carry_nocheck_spec.
+
+(* @awkward_one_mask k_safe *)
+Theorem C13_const_mask_safe :
+  forall v tomask n,
+  n <= zlen tomask -> const_mask v tomask n <> KOob.
+Proof. exact const_mask_safe. Qed.
+Print Assumptions C13_const_mask_safe.
+
+(* @awkward_one_mask k_spec *)
+Theorem C13_const_mask_spec :
+  forall v tomask n,
+  0 <= n <= zlen tomask ->
+  const_mask v tomask n = KOk (map (fun _ => v) (iota n) ++ skipn (Z.to_nat n) tomask).
+Proof. exact const_mask_spec. Qed.
+Print Assumptions C13_const_mask_spec.
+
+(* @awkward_NumpyArray_contiguous_init k_safe *)
+Theorem C13_NumpyArray_contiguous_init_safe :
+  forall toptr skip stride,
+  skip <= zlen toptr -> NumpyArray_contiguous_init toptr skip stride <> KOob.
+Proof. exact NumpyArray_contiguous_init_safe. Qed.
+Print Assumptions C13_NumpyArray_contiguous_init_safe.
+
+(* @awkward_NumpyArray_contiguous_init k_spec *)
+Theorem C13_NumpyArray_contiguous_init_spec :
+  forall toptr skip stride,
+  0 <= skip <= zlen toptr ->
+  NumpyArray_contiguous_init toptr skip stride
+  = KOk (map (fun i => i * stride) (iota skip) ++ skipn (Z.to_nat skip) toptr).
+Proof. exact NumpyArray_contiguous_init_spec. Qed.
+Print Assumptions C13_NumpyArray_contiguous_init_spec.
+
+(* @awkward_NumpyArray_fill_frombool k_safe *)
+Theorem C13_NumpyArray_fill_frombool_safe :
+  forall tTO toptr off fromptr n,
+  0 <= off -> n <= zlen fromptr -> off + n <= zlen toptr -> NumpyArray_fill_frombool tTO toptr off fromptr n <> KOob.
+Proof. exact NumpyArray_fill_frombool_safe. Qed.
+Print Assumptions C13_NumpyArray_fill_frombool_safe.
+
+(* @awkward_NumpyArray_fill_frombool k_spec *)
+Theorem C13_NumpyArray_fill_frombool_spec :
+  forall toptr off fromptr,
+  0 <= off -> off + zlen fromptr <= zlen toptr ->
+  NumpyArray_fill_frombool TIdeal toptr off fromptr (zlen fromptr)
+  = KOk (firstn (Z.to_nat off) toptr ++ map (fun x => b2z (negb (x =? 0))) fromptr
+         ++ skipn (Z.to_nat (off + zlen fromptr)) toptr).
+Proof. exact NumpyArray_fill_frombool_spec. Qed.
+Print Assumptions C13_NumpyArray_fill_frombool_spec.
+
+(* @awkward_NumpyArray_fill_frombool k_width *)
+Theorem C13_NumpyArray_fill_frombool_width :
+  forall tTO toptr off fromptr n,
+  (forall b, tTO = TI b -> 1 < b) -> (forall b, tTO = TU b -> 0 < b) ->
+  NumpyArray_fill_frombool tTO toptr off fromptr n = NumpyArray_fill_frombool TIdeal toptr off fromptr n.
+Proof. exact NumpyArray_fill_frombool_width. Qed.
+Print Assumptions C13_NumpyArray_fill_frombool_width.
+
+(* @awkward_NumpyArray_fill_tobool k_safe *)
+Theorem C13_NumpyArray_fill_tobool_safe :
+  forall toptr off fromptr n,
+  0 <= off -> n <= zlen fromptr -> off + n <= zlen toptr -> NumpyArray_fill_tobool toptr off fromptr n <> KOob.
+Proof. exact NumpyArray_fill_tobool_safe. Qed.
+Print Assumptions C13_NumpyArray_fill_tobool_safe.
+
+(* @awkward_NumpyArray_fill_tobool k_spec *)
+Theorem C13_NumpyArray_fill_tobool_spec :
+  forall toptr off fromptr,
+  0 <= off -> off + zlen fromptr <= zlen toptr ->
+  NumpyArray_fill_tobool toptr off fromptr (zlen fromptr)
+  = KOk (firstn (Z.to_nat off) toptr ++ map (fun x => b2z (negb (x =? 0))) fromptr
+         ++ skipn (Z.to_nat (off + zlen fromptr)) toptr).
+Proof. exact NumpyArray_fill_tobool_spec. Qed.
+Print Assumptions C13_NumpyArray_fill_tobool_spec.
+
+(* @awkward_NumpyArray_getitem_next_at k_safe *)
+Theorem C13_NumpyArray_getitem_next_at_safe :
+  forall nextcarryptr carryptr lencarry skip at0,
+  lencarry <= zlen carryptr -> lencarry <= zlen nextcarryptr ->
+  NumpyArray_getitem_next_at nextcarryptr carryptr lencarry skip at0 <> KOob.
+Proof. exact NumpyArray_getitem_next_at_safe. Qed.
+Print Assumptions C13_NumpyArray_getitem_next_at_safe.
+
+(* @awkward_NumpyArray_getitem_next_at k_spec *)
+Theorem C13_NumpyArray_getitem_next_at_spec :
+  forall nextcarryptr carryptr skip at0,
+  zlen carryptr <= zlen nextcarryptr ->
+  NumpyArray_getitem_next_at nextcarryptr carryptr (zlen carryptr) skip at0
+  = KOk (map (fun c => skip * c + at0) carryptr ++ skipn (length carryptr) nextcarryptr).
+Proof. exact NumpyArray_getitem_next_at_spec. Qed.
+Print Assumptions C13_NumpyArray_getitem_next_at_spec.
+
+(* @awkward_NumpyArray_getitem_next_array_advanced k_safe *)
+Theorem C13_NumpyArray_getitem_next_array_advanced_safe :
+  forall nextcarryptr carryptr advancedptr flatheadptr lencarry skip,
+  lencarry <= zlen carryptr -> lencarry <= zlen advancedptr -> lencarry <= zlen nextcarryptr ->
+  (forall i, 0 <= i < lencarry -> 0 <= at_ advancedptr i < zlen flatheadptr) ->
+  NumpyArray_getitem_next_array_advanced nextcarryptr carryptr advancedptr flatheadptr lencarry skip <> KOob.
+Proof. exact NumpyArray_getitem_next_array_advanced_safe. Qed.
+Print Assumptions C13_NumpyArray_getitem_next_array_advanced_safe.
+
+(* @awkward_NumpyArray_getitem_next_array_advanced k_spec *)
+Theorem C13_NumpyArray_getitem_next_array_advanced_spec :
+  forall nextcarryptr carryptr advancedptr flatheadptr skip,
+  zlen carryptr = zlen advancedptr -> zlen carryptr <= zlen nextcarryptr ->
+  (forall i, 0 <= i < zlen carryptr -> 0 <= at_ advancedptr i < zlen flatheadptr) ->
+  NumpyArray_getitem_next_array_advanced nextcarryptr carryptr advancedptr flatheadptr (zlen carryptr) skip
+  = KOk (map (fun p => skip * fst p + at_ flatheadptr (snd p)) (zip carryptr advancedptr)
+         ++ skipn (length carryptr) nextcarryptr).
+Proof. exact NumpyArray_getitem_next_array_advanced_spec. Qed.
+Print Assumptions C13_NumpyArray_getitem_next_array_advanced_spec.
+
+(* @awkward_Identities32_to_Identities64 k_safe *)
+Theorem C13_Identities32_to_Identities64_safe :
+  forall toptr fromptr length width,
+  length * width <= zlen fromptr -> length * width <= zlen toptr ->
+  Identities32_to_Identities64 toptr fromptr length width <> KOob.
+Proof. exact Identities32_to_Identities64_safe. Qed.
+Print Assumptions C13_Identities32_to_Identities64_safe.
+
+(* @awkward_Identities32_to_Identities64 k_spec *)
+Theorem C13_Identities32_to_Identities64_spec :
+  forall toptr fromptr length width,
+  length * width = zlen fromptr -> zlen fromptr <= zlen toptr ->
+  Identities32_to_Identities64 toptr fromptr length width = KOk (fromptr ++ skipn (List.length fromptr) toptr).
+Proof. exact Identities32_to_Identities64_spec. Qed.
+Print Assumptions C13_Identities32_to_Identities64_spec.
+
+(* @awkward_IndexedArray_reduce_next_fix_offsets_64 k_safe *)
+Theorem C13_IndexedArray_reduce_next_fix_offsets_safe :
+  forall outoffsets starts startslength outindexlength,
+  0 <= startslength <= zlen starts -> startslength < zlen outoffsets ->
+  IndexedArray_reduce_next_fix_offsets outoffsets starts startslength outindexlength <> KOob.
+Proof. exact IndexedArray_reduce_next_fix_offsets_safe. Qed.
+Print Assumptions C13_IndexedArray_reduce_next_fix_offsets_safe.
+
+(* @awkward_IndexedArray_reduce_next_fix_offsets_64 k_spec *)
+Theorem C13_IndexedArray_reduce_next_fix_offsets_spec :
+  forall outoffsets starts outindexlength,
+  zlen outoffsets = zlen starts + 1 ->
+  IndexedArray_reduce_next_fix_offsets outoffsets starts (zlen starts) outindexlength
+  = KOk (starts ++ [outindexlength]).
+Proof. exact IndexedArray_reduce_next_fix_offsets_spec. Qed.
+Print Assumptions C13_IndexedArray_reduce_next_fix_offsets_spec.
+
+(* @awkward_ListOffsetArray_reduce_global_startstop_64 k_safe *)
+Theorem C13_ListOffsetArray_reduce_global_startstop_safe :
+  forall globalstart globalstop offsets length,
+  0 <= length < zlen offsets -> 0 < zlen globalstart -> 0 < zlen globalstop ->
+  ListOffsetArray_reduce_global_startstop globalstart globalstop offsets length <> KOob.
+Proof. exact ListOffsetArray_reduce_global_startstop_safe. Qed.
+Print Assumptions C13_ListOffsetArray_reduce_global_startstop_safe.
+
+(* @awkward_ListOffsetArray_reduce_global_startstop_64 k_spec *)
+Theorem C13_ListOffsetArray_reduce_global_startstop_spec :
+  forall a b offsets,
+  0 < zlen offsets ->
+  ListOffsetArray_reduce_global_startstop [a] [b] offsets (zlen offsets - 1)
+  = KOk ([hd 0 offsets], [last offsets 0]).
+Proof. exact ListOffsetArray_reduce_global_startstop_spec. Qed.
+Print Assumptions C13_ListOffsetArray_reduce_global_startstop_spec.
+
+(* @awkward_reduce_prod_int64_bool_64 k_safe *)
+Theorem C13_reduce_prod_int_bool_safe :
+  forall tO toptr fromptr parents n ol,
+  red_pre toptr fromptr parents n ol -> reduce_prod_int_bool tO toptr fromptr parents n ol <> KOob.
+Proof. exact reduce_prod_int_bool_safe. Qed.
+Print Assumptions C13_reduce_prod_int_bool_safe.
+
+(* @awkward_reduce_prod_int64_bool_64 k_spec *)
+Theorem C13_reduce_prod_int_bool_spec :
+  forall tO toptr fromptr parents n ol,
+  red_pre toptr fromptr parents n ol ->
+  exists out, reduce_prod_int_bool tO toptr fromptr parents n ol = KOk out /\ zlen out = zlen toptr /\
+    forall q, 0 <= q -> at_ out q = if q <? ol
+      then red_upto tO 1 (fun _ cur x => cur * b2z (negb (x =? 0))) parents fromptr (Z.to_nat n) q
+      else at_ toptr q.
+Proof. exact reduce_prod_int_bool_spec. Qed.
+Print Assumptions C13_reduce_prod_int_bool_spec.
+
+(* @awkward_combinations k_safe *)
+Theorem C13_combinations_safe :
+  forall toindex n replacement singlelen,
+  combinations toindex n replacement singlelen <> XOob.
+Proof. exact combinations_safe. Qed.
+Print Assumptions C13_combinations_safe.
+
+(* @awkward_combinations k_spec *)
+Theorem C13_combinations_spec :
+  forall toindex n replacement singlelen,
+  combinations toindex n replacement singlelen = XErr MFixmeCombinations.
+Proof. exact combinations_spec. Qed.
+Print Assumptions C13_combinations_spec.
+
+(* @awkward_ByteMaskedArray_numnull k_safe *)
+Theorem C13_ByteMaskedArray_numnull_safe :
+  forall numnull mask n vw,
+  n <= zlen mask -> 1 <= zlen numnull -> ByteMaskedArray_numnull numnull mask n vw <> KOob.
+Proof. exact ByteMaskedArray_numnull_safe. Qed.
+Print Assumptions C13_ByteMaskedArray_numnull_safe.
+
+(* @awkward_ByteMaskedArray_numnull k_spec *)
+Theorem C13_ByteMaskedArray_numnull_spec :
+  forall numnull mask vw,
+  1 <= zlen numnull ->
+  exists out, ByteMaskedArray_numnull numnull mask (zlen mask) vw = KOk out /\ zlen out = zlen numnull /\
+    at_ out 0 = zlen (filter (fun m => negb (mvalid m vw)) mask) /\ forall q, 1 <= q -> at_ out q = at_ numnull q.
+Proof. exact ByteMaskedArray_numnull_spec. Qed.
+Print Assumptions C13_ByteMaskedArray_numnull_spec.
+
+(* @awkward_NumpyArray_contiguous_next k_safe *)
+Theorem C13_NumpyArray_contiguous_next_safe :
+  forall topos frompos length skip stride,
+  0 <= skip -> 0 <= length -> length <= zlen frompos -> length * skip <= zlen topos ->
+  NumpyArray_contiguous_next topos frompos length skip stride <> KOob.
+Proof. exact NumpyArray_contiguous_next_safe. Qed.
+Print Assumptions C13_NumpyArray_contiguous_next_safe.
+
+(* @awkward_NumpyArray_getitem_next_range k_safe *)
+Theorem C13_NumpyArray_getitem_next_range_safe :
+  forall nextcarryptr carryptr lencarry lenhead skip start step,
+  0 <= lenhead -> 0 <= lencarry -> lencarry <= zlen carryptr -> lencarry * lenhead <= zlen nextcarryptr ->
+  NumpyArray_getitem_next_range nextcarryptr carryptr lencarry lenhead skip start step <> KOob.
+Proof. exact NumpyArray_getitem_next_range_safe. Qed.
+Print Assumptions C13_NumpyArray_getitem_next_range_safe.
+
+(* @awkward_missing_repeat k_safe *)
+Theorem C13_missing_repeat_safe :
+  forall outindex index indexlength repetitions regularsize,
+  0 <= indexlength -> 0 <= repetitions -> indexlength <= zlen index -> repetitions * indexlength <= zlen outindex ->
+  missing_repeat outindex index indexlength repetitions regularsize <> KOob.
+Proof. exact missing_repeat_safe. Qed.
+Print Assumptions C13_missing_repeat_safe.
+
+(* @awkward_IndexedArray_index_of_nulls k_safe *)
+Theorem C13_IndexedArray_index_of_nulls_safe :
+  forall toindex fromindex n parents starts,
+  n <= zlen fromindex -> n <= zlen parents -> n <= zlen toindex ->
+  (forall i, 0 <= i < n -> at_ fromindex i < 0 -> 0 <= at_ parents i < zlen starts) ->
+  IndexedArray_index_of_nulls toindex fromindex n parents starts <> KOob.
+Proof. exact IndexedArray_index_of_nulls_safe. Qed.
+Print Assumptions C13_IndexedArray_index_of_nulls_safe.
+
+(* @awkward_IndexedArray_index_of_nulls k_spec *)
+Theorem C13_IndexedArray_index_of_nulls_spec :
+  forall toindex fromindex parents starts,
+  let sel := fun i => if at_ fromindex i <? 0 then Some (i - at_ starts (at_ parents i)) else None in
+  zlen fromindex <= zlen parents ->
+  (forall i, 0 <= i < zlen fromindex -> at_ fromindex i < 0 -> 0 <= at_ parents i < zlen starts) ->
+  zlen (pushed sel (zlen fromindex)) <= zlen toindex ->
+  IndexedArray_index_of_nulls toindex fromindex (zlen fromindex) parents starts
+  = KOk (pushed sel (zlen fromindex) ++ skipn (length (pushed sel (zlen fromindex))) toindex).
+Proof. exact IndexedArray_index_of_nulls_spec. Qed.
+Print Assumptions C13_IndexedArray_index_of_nulls_spec.
+
+(* @awkward_ByteMaskedArray_reduce_next_64 k_safe *)
+Theorem C13_ByteMaskedArray_reduce_next_safe :
+  forall nextcarry nextparents outindex mask parents n vw,
+  n <= zlen mask -> n <= zlen parents -> n <= zlen nextcarry -> n <= zlen nextparents -> n <= zlen outindex ->
+  ByteMaskedArray_reduce_next nextcarry nextparents outindex mask parents n vw <> KOob.
+Proof. exact ByteMaskedArray_reduce_next_safe. Qed.
+Print Assumptions C13_ByteMaskedArray_reduce_next_safe.
+
+(* @awkward_IndexedArray_reduce_next_64 k_safe *)
+Theorem C13_IndexedArray_reduce_next_safe :
+  forall nextcarry nextparents outindex index parents n,
+  n <= zlen index -> n <= zlen parents -> n <= zlen nextcarry -> n <= zlen nextparents -> n <= zlen outindex ->
+  IndexedArray_reduce_next nextcarry nextparents outindex index parents n <> KOob.
+Proof. exact IndexedArray_reduce_next_safe. Qed.
+Print Assumptions C13_IndexedArray_reduce_next_safe.
+
+(* @awkward_ByteMaskedArray_reduce_next_nonlocal_nextshifts_64 k_safe *)
+Theorem C13_ByteMaskedArray_reduce_next_nonlocal_nextshifts_safe :
+  forall nextshifts mask n vw,
+  n <= zlen mask -> n <= zlen nextshifts ->
+  ByteMaskedArray_reduce_next_nonlocal_nextshifts nextshifts mask n vw <> KOob.
+Proof. exact ByteMaskedArray_reduce_next_nonlocal_nextshifts_safe. Qed.
+Print Assumptions C13_ByteMaskedArray_reduce_next_nonlocal_nextshifts_safe.
+
+(* @awkward_ByteMaskedArray_reduce_next_nonlocal_nextshifts_fromshifts_64 k_safe *)
+Theorem C13_ByteMaskedArray_reduce_next_nonlocal_nextshifts_fromshifts_safe :
+  forall nextshifts mask n vw shifts,
+  n <= zlen mask -> n <= zlen nextshifts -> n <= zlen shifts ->
+  ByteMaskedArray_reduce_next_nonlocal_nextshifts_fromshifts nextshifts mask n vw shifts <> KOob.
+Proof. exact ByteMaskedArray_reduce_next_nonlocal_nextshifts_fromshifts_safe. Qed.
+Print Assumptions C13_ByteMaskedArray_reduce_next_nonlocal_nextshifts_fromshifts_safe.
+
+(* @awkward_IndexedArray_reduce_next_nonlocal_nextshifts_64 k_safe *)
+Theorem C13_IndexedArray_reduce_next_nonlocal_nextshifts_safe :
+  forall nextshifts index n,
+  n <= zlen index -> n <= zlen nextshifts ->
+  IndexedArray_reduce_next_nonlocal_nextshifts nextshifts index n <> KOob.
+Proof. exact IndexedArray_reduce_next_nonlocal_nextshifts_safe. Qed.
+Print Assumptions C13_IndexedArray_reduce_next_nonlocal_nextshifts_safe.
+
+(* @awkward_IndexedArray_reduce_next_nonlocal_nextshifts_fromshifts_64 k_safe *)
+Theorem C13_IndexedArray_reduce_next_nonlocal_nextshifts_fromshifts_safe :
+  forall nextshifts index n shifts,
+  n <= zlen index -> n <= zlen nextshifts -> n <= zlen shifts ->
+  IndexedArray_reduce_next_nonlocal_nextshifts_fromshifts nextshifts index n shifts <> KOob.
+Proof. exact IndexedArray_reduce_next_nonlocal_nextshifts_fromshifts_safe. Qed.
+Print Assumptions C13_IndexedArray_reduce_next_nonlocal_nextshifts_fromshifts_safe.
+
+(* @awkward_carry_SliceMissing64_outindex k_safe *)
+Theorem C13_carry_SliceMissing64_outindex_safe :
+  forall toindex fromindex n,
+  n <= zlen fromindex -> n <= zlen toindex -> carry_SliceMissing64_outindex toindex fromindex n <> KOob.
+Proof. exact carry_SliceMissing64_outindex_safe. Qed.
+Print Assumptions C13_carry_SliceMissing64_outindex_safe.
+
+(* @awkward_IndexedOptionArray_rpad_and_clip_mask_axis1 k_safe *)
+Theorem C13_IndexedOptionArray_rpad_and_clip_mask_axis1_safe :
+  forall toindex frommask n,
+  n <= zlen frommask -> n <= zlen toindex -> IndexedOptionArray_rpad_and_clip_mask_axis1 toindex frommask n <> KOob.
+Proof. exact IndexedOptionArray_rpad_and_clip_mask_axis1_safe. Qed.
+Print Assumptions C13_IndexedOptionArray_rpad_and_clip_mask_axis1_safe.
+
+(* @awkward_slicemissing_check_same k_safe *)
+Theorem C13_slicemissing_check_same_safe :
+  forall same bytemask missingindex n,
+  n <= zlen bytemask -> n <= zlen missingindex -> 1 <= zlen same ->
+  slicemissing_check_same same bytemask missingindex n <> KOob.
+Proof. exact slicemissing_check_same_safe. Qed.
+Print Assumptions C13_slicemissing_check_same_safe.
+
+(* @awkward_Index_iscontiguous k_safe *)
+Theorem C13_Index_iscontiguous_safe :
+  forall tT result fromindex n,
+  n <= zlen fromindex -> 1 <= zlen result -> Index_iscontiguous tT result fromindex n <> KOob.
+Proof. exact Index_iscontiguous_safe. Qed.
+Print Assumptions C13_Index_iscontiguous_safe.
+
+(* @awkward_Index_nones_as_index k_safe *)
+Theorem C13_Index_nones_as_index_safe :
+  forall toindex n,
+  n <= zlen toindex -> Index_nones_as_index toindex n <> KOob.
+Proof. exact Index_nones_as_index_safe. Qed.
+Print Assumptions C13_Index_nones_as_index_safe.
+
+(* @awkward_UnionArray_simplify_one k_safe *)
+Theorem C13_UnionArray_simplify_one_safe :
+  forall tTT totags toindex fromtags fromindex towhich fromwhich n base,
+  n <= zlen fromtags -> n <= zlen fromindex -> n <= zlen totags -> n <= zlen toindex ->
+  UnionArray_simplify_one tTT totags toindex fromtags fromindex towhich fromwhich n base <> KOob.
+Proof. exact UnionArray_simplify_one_safe. Qed.
+Print Assumptions C13_UnionArray_simplify_one_safe.
+
+(* @awkward_UnionArray_simplify k_safe *)
+Theorem C13_UnionArray_simplify_safe :
+  forall tTT totags toindex outertags outerindex innertags innerindex tw iw ow n base,
+  n <= zlen outertags -> n <= zlen outerindex -> n <= zlen totags -> n <= zlen toindex ->
+  (forall i, 0 <= i < n -> at_ outertags i = ow ->
+     0 <= at_ outerindex i < zlen innertags /\ at_ outerindex i < zlen innerindex) ->
+  UnionArray_simplify tTT totags toindex outertags outerindex innertags innerindex tw iw ow n base <> KOob.
+Proof. exact UnionArray_simplify_safe. Qed.
+Print Assumptions C13_UnionArray_simplify_safe.
+
+(* @awkward_ListArray_getitem_jagged_carrylen k_safe *)
+Theorem C13_ListArray_getitem_jagged_carrylen_safe :
+  forall carrylen slicestarts slicestops n,
+  n <= zlen slicestarts -> n <= zlen slicestops -> 1 <= zlen carrylen ->
+  ListArray_getitem_jagged_carrylen carrylen slicestarts slicestops n <> KOob.
+Proof. exact ListArray_getitem_jagged_carrylen_safe. Qed.
+Print Assumptions C13_ListArray_getitem_jagged_carrylen_safe.
+
+(* @awkward_NumpyArray_reduce_mask_ByteMaskedArray_64 k_safe *)
+Theorem C13_NumpyArray_reduce_mask_ByteMaskedArray_safe :
+  forall toptr parents lenparents outlength,
+  0 <= outlength <= zlen toptr -> lenparents <= zlen parents ->
+  (forall i, 0 <= i < lenparents -> 0 <= at_ parents i < zlen toptr) ->
+  NumpyArray_reduce_mask_ByteMaskedArray toptr parents lenparents outlength <> KOob.
+Proof. exact NumpyArray_reduce_mask_ByteMaskedArray_safe. Qed.
+Print Assumptions C13_NumpyArray_reduce_mask_ByteMaskedArray_safe.
+
+(* @awkward_MaskedArray_getitem_next_jagged_project k_safe *)
+Theorem C13_MaskedArray_getitem_next_jagged_project_safe :
+  forall index starts_in stops_in starts_out stops_out n,
+  n <= zlen index -> n <= zlen starts_in -> n <= zlen stops_in -> n <= zlen starts_out -> n <= zlen stops_out ->
+  MaskedArray_getitem_next_jagged_project index starts_in stops_in starts_out stops_out n <> KOob.
+Proof. exact MaskedArray_getitem_next_jagged_project_safe. Qed.
+Print Assumptions C13_MaskedArray_getitem_next_jagged_project_safe.
+
+(* @awkward_Content_getitem_next_missing_jagged_getmaskstartstop k_safe *)
+Theorem C13_Content_getitem_next_missing_jagged_getmaskstartstop_safe :
+  forall index_in offsets_in mask_out starts_out stops_out n,
+  n <= zlen index_in -> n < zlen offsets_in -> n <= zlen mask_out -> n <= zlen starts_out -> n <= zlen stops_out ->
+  Content_getitem_next_missing_jagged_getmaskstartstop index_in offsets_in mask_out starts_out stops_out n <> KOob.
+Proof. exact Content_getitem_next_missing_jagged_getmaskstartstop_safe. Qed.
+Print Assumptions C13_Content_getitem_next_missing_jagged_getmaskstartstop_safe.
+
+(* @awkward_ListOffsetArray_toRegularArray k_safe *)
+Theorem C13_ListOffsetArray_toRegularArray_safe :
+  forall size fromoffsets offsetslength,
+  offsetslength <= zlen fromoffsets -> 1 <= zlen size ->
+  ListOffsetArray_toRegularArray size fromoffsets offsetslength <> XOob.
+Proof. exact ListOffsetArray_toRegularArray_safe. Qed.
+Print Assumptions C13_ListOffsetArray_toRegularArray_safe.
+
+(* @awkward_ListOffsetArray_toRegularArray k_spec *)
+Theorem C13_ListOffsetArray_toRegularArray_spec :
+  forall x fromoffsets c,
+  2 <= zlen fromoffsets -> 0 <= c ->
+  (forall i, 0 <= i < zlen fromoffsets - 1 -> at_ fromoffsets (i + 1) - at_ fromoffsets i = c) ->
+  ListOffsetArray_toRegularArray [x] fromoffsets (zlen fromoffsets) = XOk [c].
+Proof. exact ListOffsetArray_toRegularArray_spec. Qed.
+Print Assumptions C13_ListOffsetArray_toRegularArray_spec.
+
+(* @awkward_NumpyArray_getitem_next_array k_safe *)
+Theorem C13_NumpyArray_getitem_next_array_safe :
+  forall nextcarryptr nextadvancedptr carryptr flatheadptr lencarry lenflathead skip,
+  0 <= lencarry <= zlen carryptr -> 0 <= lenflathead <= zlen flatheadptr ->
+  lencarry * lenflathead <= zlen nextcarryptr -> lencarry * lenflathead <= zlen nextadvancedptr ->
+  NumpyArray_getitem_next_array nextcarryptr nextadvancedptr carryptr flatheadptr lencarry lenflathead skip <> KOob.
+Proof. exact NumpyArray_getitem_next_array_safe. Qed.
+Print Assumptions C13_NumpyArray_getitem_next_array_safe.
+
+(* @awkward_NumpyArray_getitem_next_range_advanced k_safe *)
+Theorem C13_NumpyArray_getitem_next_range_advanced_safe :
+  forall nextcarryptr nextadvancedptr carryptr advancedptr lencarry lenhead skip start step,
+  0 <= lencarry <= zlen carryptr -> lencarry <= zlen advancedptr -> 0 <= lenhead ->
+  lencarry * lenhead <= zlen nextcarryptr -> lencarry * lenhead <= zlen nextadvancedptr ->
+  NumpyArray_getitem_next_range_advanced nextcarryptr nextadvancedptr carryptr advancedptr lencarry lenhead skip start step
+  <> KOob.
+Proof. exact NumpyArray_getitem_next_range_advanced_safe. Qed.
+Print Assumptions C13_NumpyArray_getitem_next_range_advanced_safe.
+
+(* @awkward_RegularArray_getitem_jagged_expand k_safe *)
+Theorem C13_RegularArray_getitem_jagged_expand_safe :
+  forall multistarts multistops singleoffsets regularsize regularlength,
+  0 <= regularsize < zlen singleoffsets -> 0 <= regularlength ->
+  regularlength * regularsize <= zlen multistarts -> regularlength * regularsize <= zlen multistops ->
+  RegularArray_getitem_jagged_expand multistarts multistops singleoffsets regularsize regularlength <> KOob.
+Proof. exact RegularArray_getitem_jagged_expand_safe. Qed.
+Print Assumptions C13_RegularArray_getitem_jagged_expand_safe.
+
+(* @awkward_UnionArray_regular_index_getsize k_safe *)
+Theorem C13_UnionArray_regular_index_getsize_safe :
+  forall size fromtags n,
+  n <= zlen fromtags -> 1 <= zlen size -> UnionArray_regular_index_getsize size fromtags n <> KOob.
+Proof. exact UnionArray_regular_index_getsize_safe. Qed.
+Print Assumptions C13_UnionArray_regular_index_getsize_safe.
+
+(* @awkward_UnionArray_regular_index k_safe *)
+Theorem C13_UnionArray_regular_index_safe :
+  forall tI toindex current size fromtags n,
+  0 <= size <= zlen current -> n <= zlen fromtags -> n <= zlen toindex ->
+  (forall i, 0 <= i < n -> 0 <= at_ fromtags i < zlen current) ->
+  UnionArray_regular_index tI toindex current size fromtags n <> KOob.
+Proof. exact UnionArray_regular_index_safe. Qed.
+Print Assumptions C13_UnionArray_regular_index_safe.
+
+(* @awkward_UnionArray_project k_safe *)
+Theorem C13_UnionArray_project_safe :
+  forall lenout tocarry fromtags fromindex n which,
+  n <= zlen fromtags -> n <= zlen fromindex -> n <= zlen tocarry -> 1 <= zlen lenout ->
+  UnionArray_project lenout tocarry fromtags fromindex n which <> KOob.
+Proof. exact UnionArray_project_safe. Qed.
+Print Assumptions C13_UnionArray_project_safe.
+
+(* @awkward_NumpyArray_reduce_adjust_starts_64 k_safe *)
+Theorem C13_NumpyArray_reduce_adjust_starts_safe :
+  forall toptr outlength parents starts,
+  outlength <= zlen toptr ->
+  (forall k, 0 <= k < outlength -> 0 <= at_ toptr k ->
+     at_ toptr k < zlen parents /\ 0 <= at_ parents (at_ toptr k) < zlen starts) ->
+  NumpyArray_reduce_adjust_starts toptr outlength parents starts <> KOob.
+Proof. exact NumpyArray_reduce_adjust_starts_safe. Qed.
+Print Assumptions C13_NumpyArray_reduce_adjust_starts_safe.
+
+(* @awkward_NumpyArray_reduce_adjust_starts_shifts_64 k_safe *)
+Theorem C13_NumpyArray_reduce_adjust_starts_shifts_safe :
+  forall toptr outlength parents starts shifts,
+  outlength <= zlen toptr ->
+  (forall k, 0 <= k < outlength -> 0 <= at_ toptr k ->
+     at_ toptr k < zlen parents /\ 0 <= at_ parents (at_ toptr k) < zlen starts /\ at_ toptr k < zlen shifts) ->
+  NumpyArray_reduce_adjust_starts_shifts toptr outlength parents starts shifts <> KOob.
+Proof. exact NumpyArray_reduce_adjust_starts_shifts_safe. Qed.
+Print Assumptions C13_NumpyArray_reduce_adjust_starts_shifts_safe.
+
+(* @awkward_Identities_extend k_safe *)
+Theorem C13_Identities_extend_safe :
+  forall tID toptr fromptr fromlength tolength,
+  fromlength <= zlen fromptr -> fromlength <= zlen toptr -> tolength <= zlen toptr ->
+  Identities_extend tID toptr fromptr fromlength tolength <> KOob.
+Proof. exact Identities_extend_safe. Qed.
+Print Assumptions C13_Identities_extend_safe.
+
+(* @awkward_Identities_getitem_carry k_safe *)
+Theorem C13_Identities_getitem_carry_safe :
+  forall newidentitiesptr identitiesptr carryptr lencarry width length,
+  0 <= width -> 0 <= lencarry <= zlen carryptr -> lencarry * width <= zlen newidentitiesptr ->
+  length * width <= zlen identitiesptr ->
+  (forall i, 0 <= i < lencarry -> 0 <= at_ carryptr i) ->
+  Identities_getitem_carry newidentitiesptr identitiesptr carryptr lencarry width length <> KOob.
+Proof. exact Identities_getitem_carry_safe. Qed.
+Print Assumptions C13_Identities_getitem_carry_safe.
+
+(* @awkward_sort k_spec *)
+Theorem C13_sort_isort_perm_spec :
+  forall (A : Type) (lt : A -> A -> bool) (l : list A), Permutation (isort lt l) l.
+Proof. exact sort_isort_perm_spec. Qed.
+Print Assumptions C13_sort_isort_perm_spec.
+
+(* @awkward_sort k_spec *)
+Theorem C13_sort_isort_sorted_spec :
+  forall (A : Type) (lt : A -> A -> bool) (l : list A),
+  (forall a b, lt a b = true -> lt b a = false) ->
+  Sorted (fun a b => lt b a = false) (isort lt l).
+Proof. exact sort_isort_sorted_spec. Qed.
+Print Assumptions C13_sort_isort_sorted_spec.
+
+(* @awkward_argsort k_spec *)
+Theorem C13_sort_isort_stable_spec :
+  forall (A : Type) (lt : A -> A -> bool) (p : A -> bool) (l : list A),
+  (forall a b, p a = true -> p b = true -> lt a b = false) ->
+  filter p (isort lt l) = filter p l.
+Proof. exact sort_isort_stable_spec. Qed.
+Print Assumptions C13_sort_isort_stable_spec.
